@@ -1001,6 +1001,9 @@ func TestVerifC20(t *testing.T) {
 		if !c.Failed() {
 			// the table as it ends up in the image (skipped when the table itself is already wrong)
 			c20ImagePhase(c, run, root, filepath.Dir(root), c.R.Fork(0xE1F))
+			if !c.Failed() {
+				c20AsmPhase(c, run, root, filepath.Dir(root), c.R.Fork(0xA53))
+			}
 		}
 
 		// evidence
